@@ -1,25 +1,117 @@
-use ropey::Rope;
+use std::collections::HashMap;
 
 use syntax::parser::TextSize;
 
+/// Maps byte offsets to LSP-style positions and back.
+///
+/// Lines are terminated by `\n`, `\r\n` or `\r` (and nothing else), columns are counted in
+/// UTF-16 code units.
 #[derive(Debug, Eq, PartialEq)]
 pub struct LineIndex {
-    rope: Rope,
+    /// byte offset of the first byte of each line
+    line_starts: Vec<TextSize>,
+    /// byte offset of the end of each line's content (its terminator excluded)
+    line_ends: Vec<TextSize>,
+    /// non-ASCII characters of each line that has any: (byte offset in the line, UTF-8 length)
+    wide_chars: HashMap<usize, Vec<(u32, u8)>>,
+    len: TextSize,
 }
 
 impl LineIndex {
     pub fn new(text: &str) -> Self {
+        let mut line_starts = vec![TextSize::from(0)];
+        let mut line_ends = Vec::new();
+        let mut wide_chars: HashMap<usize, Vec<(u32, u8)>> = HashMap::new();
+
+        let mut line_start = 0;
+        let mut chars = text.char_indices().peekable();
+        while let Some((offset, c)) = chars.next() {
+            match c {
+                '\n' | '\r' => {
+                    line_ends.push(TextSize::from(offset as u32));
+                    let mut next = offset + 1;
+                    if c == '\r' && matches!(chars.peek(), Some((_, '\n'))) {
+                        chars.next();
+                        next += 1;
+                    }
+                    line_start = next;
+                    line_starts.push(TextSize::from(next as u32));
+                }
+                c if !c.is_ascii() => {
+                    wide_chars
+                        .entry(line_starts.len() - 1)
+                        .or_default()
+                        .push(((offset - line_start) as u32, c.len_utf8() as u8));
+                }
+                _ => {}
+            }
+        }
+        let len = TextSize::from(text.len() as u32);
+        line_ends.push(len);
+
         Self {
-            rope: Rope::from_str(text),
+            line_starts,
+            line_ends,
+            wide_chars,
+            len,
         }
     }
 
     pub fn pos_to_line(&self, pos: TextSize) -> usize {
-        self.rope.char_to_line(pos.into())
+        self.line_starts.partition_point(|&start| start <= pos) - 1
     }
 
     pub fn line_to_pos(&self, line: usize) -> TextSize {
-        let pos = self.rope.line_to_char(line);
-        TextSize::try_from(pos).expect("line index out of bounds")
+        self.line_starts.get(line).copied().unwrap_or(self.len)
+    }
+
+    /// Returns the zero-based line containing `pos` and the UTF-16 column of `pos` in it.
+    pub fn pos_to_line_col(&self, pos: TextSize) -> (usize, u32) {
+        let pos = pos.min(self.len);
+        let line = self.pos_to_line(pos);
+        let byte_col: u32 = (pos - self.line_starts[line]).into();
+        let mut col = byte_col;
+        if let Some(wide_chars) = self.wide_chars.get(&line) {
+            for &(offset, len) in wide_chars {
+                if offset >= byte_col {
+                    break;
+                }
+                col -= utf8_minus_utf16_len(len);
+            }
+        }
+        (line, col)
+    }
+
+    /// Returns the offset of the UTF-16 column `col` of `line`; a column past the end of the
+    /// line means the end of the line.
+    pub fn line_col_to_pos(&self, line: usize, col: u32) -> TextSize {
+        let Some(&line_start) = self.line_starts.get(line) else {
+            return self.len;
+        };
+        let mut byte_col = col;
+        if let Some(wide_chars) = self.wide_chars.get(&line) {
+            for &(offset, len) in wide_chars {
+                if offset >= byte_col {
+                    break;
+                }
+                byte_col += utf8_minus_utf16_len(len);
+                if offset + u32::from(len) > byte_col {
+                    // the column points into the middle of a character
+                    byte_col = offset;
+                    break;
+                }
+            }
+        }
+        let line_len: u32 = (self.line_ends[line] - line_start).into();
+        line_start + TextSize::from(byte_col.min(line_len))
+    }
+}
+
+fn utf8_minus_utf16_len(utf8_len: u8) -> u32 {
+    match utf8_len {
+        2 => 1,
+        3 => 2,
+        // encoded as a surrogate pair
+        _ => 2,
     }
 }
